@@ -605,7 +605,7 @@ func runRedef(c *Ctx) {
 			for _, r := range core.Returns(validator) {
 				for _, s := range core.Sources(r.Results[0]) {
 					if mi := core.Strip(s); mi != nil {
-						if cl, ok := mi.(*ssa.Call); ok && strings.HasSuffix(core.CalleeName(cl.Common()), "go-multierror.Append") {
+						if cl, ok := mi.(*ssa.Call); ok && isErrAccumulator(cl.Common()) {
 							for _, l := range core.Lits(core.Guards(cl.Block())) {
 								if l.Kind == "call" && !l.Pol && l.Of == ssa.Value(fcall) {
 									rejects = true
@@ -747,6 +747,10 @@ func runRedef(c *Ctx) {
 					return
 				}
 				// slices.Clone(opts) / slices.Concat(opts, …): a private copy of the captured options
+				if pk, fn := core.StdCallee(x.Common().StaticCallee()); pk == "slices" && (fn == "Grow" || fn == "Clip") && len(x.Common().Args) >= 1 {
+					walk(x.Common().Args[0], d+1) // the same list, with room to grow
+					return
+				}
 				if pk, fn := core.StdCallee(x.Common().StaticCallee()); pk == "slices" && (fn == "Clone" || fn == "Concat") {
 					as := x.Common().Args
 					if fn == "Concat" && len(as) == 1 {
@@ -929,9 +933,34 @@ func runRedef(c *Ctx) {
 						if core.CalleeName(x.Common()) == "builtin.append" {
 							wt(x.Common().Args[0], d+1)
 							for _, e := range appendedValues(x) {
-								if ld, ok := e.(*ssa.UnOp); !ok || !p.IsErrTypeGlobal(ld) {
-									okT, whyT = false, "a result type other than the error type is appended: "+core.Path(e)
+								if ld, ok := e.(*ssa.UnOp); ok && p.IsErrTypeGlobal(ld) {
+									continue
 								}
+								// the list built by appending Out(i) of the wrapped function's own type for a counter i
+								if cl, ok := e.(*ssa.Call); ok && core.CalleeName(cl.Common()) == "(reflect.Type).Out" {
+									as := core.CallArgs(cl.Common())
+									own := len(as) == 2
+									if own {
+										for _, rs := range core.Sources(as[0]) {
+											tc, ok := rs.(*ssa.Call)
+											if !ok || core.CalleeName(tc.Common()) != "(reflect.Value).Type" {
+												own = false
+												continue
+											}
+											if fr, ok := core.AsFieldLoad(core.CallArgs(tc.Common())[0]); !ok || fr.Owner != "Func" || fr.Field != fnField {
+												own = false
+											}
+										}
+										if ph, isPhi := as[1].(*ssa.Phi); !isPhi || !isCounter(ph) {
+											own = false
+										}
+									}
+									if own {
+										nOut++
+										continue
+									}
+								}
+								okT, whyT = false, "a result type other than the error type is appended: "+core.Path(e)
 							}
 							return
 						}
@@ -960,7 +989,7 @@ func runRedef(c *Ctx) {
 					core.Instrs(x.Parent(), func(in ssa.Instruction) {
 						if st, ok := in.(*ssa.Store); ok {
 							if ia, ok := st.Addr.(*ssa.IndexAddr); ok && ia.X == ssa.Value(x) {
-								if cl, ok := st.Val.(*ssa.Call); ok && core.CalleeName(cl.Common()) == "reflect.ValueOf" {
+								if _, ok := c.boxedErr(st.Val); ok {
 									if b, ok := ia.Index.(*ssa.BinOp); ok && b.Op == token.SUB {
 										errPath = true
 									}
@@ -1022,8 +1051,7 @@ func runRedef(c *Ctx) {
 					if !ok || core.TypeStr(mk.Type()) != "[]reflect.Value" {
 						return
 					}
-					cl, ok := st.Val.(*ssa.Call)
-					if !ok || core.CalleeName(cl.Common()) != "reflect.ValueOf" {
+					if _, ok := c.boxedErr(st.Val); !ok {
 						return
 					}
 					if b, ok := ia.Index.(*ssa.BinOp); !ok || b.Op != token.SUB {
@@ -1036,7 +1064,7 @@ func runRedef(c *Ctx) {
 						switch x := in2.(type) {
 						case *ssa.Store:
 							if ia2, ok := x.Addr.(*ssa.IndexAddr); ok && ia2.X == ssa.Value(mk) && x != st {
-								if z, ok := x.Val.(*ssa.Call); ok && core.CalleeName(z.Common()) == "reflect.Zero" {
+								if c.zeroErr(x.Val) {
 									switch ix := ia2.Index.(type) {
 									case *ssa.Phi:
 										isFill = isCounter(ix)
